@@ -35,12 +35,13 @@ import json
 import core
 
 LEVEL = "proof"
-EXTRA_TARGETS = ["model/ImgIterTie.vo", "model/ImgIterReentTie.vo", "model/ImgIterFinTie.vo"]
+EXTRA_TARGETS = ["model/ImgIterTie.vo", "model/ImgIterReentTie.vo", "model/ImgIterFinTie.vo", "model/ImgIterCloseTie.vo"]
 
 HEADER = ("From Coq Require Import List ZArith Bool.\nImport ListNotations.\n"
           "From TI Require Import model.ImgIter model.ImgIterSpec model.ImgIterEnv model.ImgIterTie.\n"
           "From TI Require Import model.ImgIterReent model.ImgIterReentTie.\n"
-          "From TI Require Import model.ImgIterFin model.ImgIterFinTie.\nLocal Open Scope nat_scope.\n")
+          "From TI Require Import model.ImgIterFin model.ImgIterFinTie.\n"
+          "From TI Require Import model.ImgIterClose model.ImgIterCloseTie.\nLocal Open Scope nat_scope.\n")
 Z = core.z
 
 
@@ -485,6 +486,72 @@ REENT_CORPUS = [
      "sizes": [[4, 2]], "fail_frame": 1, "ops": [["nextcd", 2, "signal"], ["nextcd", 1, "reent"], ["next"], ["close"]]},
 ]
 
+
+# ---- round 9: the IMAGE's close() at any position of a history of iterators over it ("corder")
+
+_CSRC = {"kind": "new", "seed": 33, "w": 8, "h": 6, "mode": "P", "frames": 3, "fmt": "GIF"}
+CORDER_SOURCES = ["file", "file", "file", "url", "url", "pil_file", "pil_file", "pil_bytes"]
+
+
+def corder_case(style, source, ops, src=None):
+    return {"part": "corder", "style": style, "source": source, "src": None if source == "url" else dict(src or _CSRC),
+            "size": None, "ops": ops}
+
+
+def gen_corder_case(rng):
+    """ImageIterator(image) x 1-3 / next / iterator.close() in a random order, image.close() inserted at a
+    uniformly chosen position (so: before the first iterator, before the first next(), between two next()
+    calls, after iterator.close()), sometimes twice; then (85%) a closing phase: close() on every iterator
+    and possibly again on the image, in a random order."""
+    nit = rng.choice([1, 1, 2, 2, 3])
+    new = lambda: ["new", rng.choice([1, 1, 2]), rng.choice([False, False, True])]  # noqa: E731
+    ops, created = [new()], 1
+    for _ in range(rng.randint(1, 11)):
+        x = rng.random()
+        if created < nit and x < 0.2:
+            ops.append(new())
+            created += 1
+        elif x < 0.78:
+            ops.append(["next", rng.randrange(created)])
+        elif x < 0.9:
+            ops.append(["iclose", rng.randrange(created)])
+        else:
+            ops.append(["imgclose"])
+    ops.insert(rng.randint(0 if rng.random() < 0.15 else 1, len(ops)), ["imgclose"])
+    if rng.random() < 0.85:
+        tail = [["iclose", i] for i in range(created)] + ([["imgclose"]] if rng.random() < 0.5 else [])
+        rng.shuffle(tail)
+        ops += tail
+    src = dict(_CSRC, seed=rng.randrange(1000), mode=rng.choice(["P", "RGB", "RGBA"]), frames=rng.choice([2, 3, 3, 4]),
+               fmt="GIF")  # Pillow keeps the descriptor of a GIF while the image is open (it drops a WEBP's after the first load)
+    return corder_case(rng.choice(["block", "block", "kitty", "iterm2"]), rng.choice(CORDER_SOURCES), ops, src)
+
+
+def _corder_orders(source, style="block"):
+    n, c, x = ["new", 1, False], ["iclose", 0], ["imgclose"]
+    return [
+        corder_case(style, source, [n, ["next", 0], x, c]),                       # image first, then the iterator
+        corder_case(style, source, [n, ["next", 0], c, x]),                       # the other order
+        corder_case(style, source, [n, x, c]),                                    # before the first next()
+        corder_case(style, source, [n, ["next", 0], x, ["next", 0], c]),          # a next() after finalization
+        corder_case(style, source, [x, n, ["next", 0], c, x]),                    # iterator over a finalized image
+    ]
+
+
+CORDER_CORPUS = (
+    _corder_orders("file") + _corder_orders("url", "kitty") + _corder_orders("pil_file") + _corder_orders("pil_bytes")[:2]
+    + [
+        # two iterators, the image closed between them; exhaustion after finalization (cached second pass)
+        corder_case("block", "file", [["new", 2, True], ["new", 1, False], ["next", 0], ["next", 0], ["next", 0], ["next", 0],
+                                      ["next", 1], ["imgclose"], ["next", 0], ["next", 0], ["next", 0], ["next", 1],
+                                      ["iclose", 1], ["iclose", 0], ["imgclose"]]),
+        corder_case("kitty", "url", [["new", 1, False], ["new", 1, False], ["next", 1], ["iclose", 0], ["imgclose"],
+                                     ["imgclose"], ["iclose", 1], ["iclose", 1]]),
+        corder_case("iterm2", "pil_file", [["new", 1, False], ["next", 0], ["next", 0], ["next", 0], ["imgclose"], ["next", 0],
+                                           ["iclose", 0]]),
+    ]
+)
+
 URL_KWARGS = {"{}": True, '{"width": 0}': False, '{"height": -3}': False, '{"width": "x"}': False,
               '{"width": 3, "height": 2}': True, '{"height": 2}': True}
 URL_KINDS = {"img.png": 0, "anim.gif": 0, "missing.png": 1, "text.txt": 2, "empty.png": 2}
@@ -649,12 +716,32 @@ def url_term(c, r):
         Z(r["base"]), core.coq_list(ops), zll([row[:3] for row in r["rows"]]), Z(r["files_end"]), Z(r["fd_delta"]))
 
 
+
+def corder_term(c, r):
+    kind = {"file": "KFile", "url": "KUrl"}.get(c["source"], "KPil")
+    fin, ops = False, []
+    for o, row in zip(c["ops"], r["rows"]):
+        if o[0] == "new":
+            ops.append(f"ONew {max(o[1], 0) * r['N']}")
+        elif o[0] == "next":
+            # [fails]: consulted by the model only once the image is finalized - as observed
+            ops.append(f"ONext {o[1]} {b(fin and row[0] == 2)}")
+        elif o[0] == "iclose":
+            ops.append(f"OIterClose {o[1]}")
+        else:
+            ops.append("OImgClose")
+            fin = True
+    obs = ["(%d, %s, %s, %s)" % (row[0] if row[0] >= 0 else 99, Z(row[1]), Z(row[2]), b(row[3])) for row in r["rows"]]
+    return "{| cc_kind := %s; cc_ops := %s; cc_obs := %s; cc_fd_end := %s; cc_tmp_end := %s |}" % (
+        kind, core.coq_list(ops), core.coq_list(obs), Z(r["fd_end"]), Z(r["tmp_end"]))
+
 # ------------------------------------------------------------------ evaluate
 
 PARTS = {"iter": ("itcase", "bad check_iter cases", iter_term), "reent": ("rcase", "bad check_reent cases", reent_term),
          "fault": ("fcase", "bad check_fault cases", fault_term),
          "sfault": ("sfcase", "bad check_sfault cases", sfault_term),
-         "url": ("ucase", "bad check_url cases", url_term)}
+         "url": ("ucase", "bad check_url cases", url_term),
+         "corder": ("ccase", "bad check_corder cases", corder_term)}
 
 
 def evaluate(cases, tag="c11"):
@@ -714,6 +801,25 @@ def simpler(c):
         if c["repeat"] not in (1, -1):
             out.append({**c, "repeat": 1})
         return [x for x in out if x["ops"]][:40]
+    if c["part"] == "corder":
+        ops = c["ops"]
+        for k in range(len(ops) - 1, -1, -1):
+            if ops[k][0] == "new":  # removing a construction renumbers the later iterators
+                i = sum(1 for o in ops[:k] if o[0] == "new")
+                rest = [o for o in ops[:k] + ops[k + 1:] if not (o[0] in ("next", "iclose") and o[1] == i)]
+                rest = [[o[0], o[1] - 1] if o[0] in ("next", "iclose") and o[1] > i else o for o in rest]
+            else:
+                rest = ops[:k] + ops[k + 1:]
+            if any(o[0] == "new" for o in rest):
+                out.append({**c, "ops": rest})
+        for k, o in enumerate(ops):
+            if o[0] == "new" and (o[1] != 1 or o[2]):
+                out.append({**c, "ops": ops[:k] + [["new", 1, False]] + ops[k + 1:]})
+        if c["style"] != "block":
+            out.append({**c, "style": "block"})
+        if c["src"] and c["src"] != _CSRC:
+            out.append({**c, "src": dict(_CSRC)})
+        return out[:40]
     if c["part"] == "url":
         ops = c["ops"]
         for k in range(len(ops) - 1, -1, -1):
@@ -783,6 +889,21 @@ def describe(c):
                 f"stream raises {SF_EXC[c.get('exc', 'broken_pipe')]} from its k-th write()/flush() on, "
                 f"k in {'every position of the fault-free run' if c.get('ks') is None else c['ks']}"
                 + (f" style_args={c['style_args']}" if c.get("style_args") else ""))
+    if c["part"] == "corder":
+        names = {"new": lambda o: f"it{{}} = ImageIterator(image, {o[1]}, '1.1', {o[2]})", "next": lambda o: f"next(it{o[1]})",
+                 "iclose": lambda o: f"it{o[1]}.close()", "imgclose": lambda o: "image.close()"}
+        k, parts = 0, []
+        for o in c["ops"]:
+            t = names[o[0]](o)
+            if o[0] == "new":
+                t = t.format(k)
+                k += 1
+            parts.append(t)
+        srcs = {"file": "from_file", "url": "from_url (local HTTP server, 3-frame GIF)", "pil_file": "a caller's PIL image opened from a file",
+                "pil_bytes": "a caller's PIL image decoded from bytes"}
+        return (f"corder {c['style']} image source: {srcs[c['source']]}"
+                + (f" [{src_str(c['src'])}]" if c.get("src") else "") + ": " + "; ".join(parts)
+                + "  -- observed after every operation, nothing dropped or collected")
     return f"url {c['style']} ops={c['ops']}"
 
 
@@ -806,6 +927,12 @@ def explain(c, r):
         bad = [x for x in [r["base"]] + r["runs"] if x.get("unclosed") or x.get("fd_after_action") or x.get("fd_end")
                or not x.get("size_kept") or not x.get("pil_alive") or not x.get("tell_kept")]
         return {"base": r["base"], "offending_runs": bad[:5]}
+    if c["part"] == "corder":
+        return {"n_frames": r.get("N"),
+                "rows(outcome, descriptors held for the library, temp-dir files, caller's image usable) after each op":
+                    [[CORDER_OUT.get(x[0], x[0])] + x[1:] for x in r.get("rows", [])],
+                "fd balance after drop + gc": r.get("fd_end"), "temp-dir balance then": r.get("tmp_end"),
+                "first unexpected exception": r.get("odd")}
     if c["part"] == "sfault":
         bad = [x for x in [r["base"]] + r["runs"] if x.get("unclosed") or x.get("fd_after") or x.get("fd_end")
                or not x.get("size_kept") or not x.get("pil_alive") or x.get("tell") != x.get("tell0")]
@@ -815,6 +942,7 @@ def explain(c, r):
 
 OUT_NAMES = {0: "frame", 1: "StopIteration", 2: "render error", 3: "hang", 4: "seek ok", 5: "seek out of range",
              6: "seek before start", 7: "seek after end", 8: "closed", 9: "size changed"}
+CORDER_OUT = {0: "frame", 1: "StopIteration", 2: "error", 3: "refused: image finalized", 8: "closed", 9: "created"}
 URL_NAMES = {0: "ok", 1: "404", 2: "not an image", 3: "bad constructor argument", 4: "used after close", 9: "other"}
 
 
@@ -829,6 +957,7 @@ def run(ctx):
         cases += list(FAULT_CORPUS) + [gen_fault_case(rng, ctx.quick) for _ in range(nf)]
         cases += list(SFAULT_CORPUS) + [gen_sfault_case(rng, ctx.quick) for _ in range(8 if ctx.quick else 150)]
         cases += list(URL_CORPUS) + [gen_url_case(rng) for _ in range(nu)]
+        cases += list(CORDER_CORPUS) + [gen_corder_case(rng) for _ in range(24 if ctx.quick else 600)]
     codes, errors, impl = evaluate(cases)
     hist = {"part": {}, "iter_style": {}, "iter_ops": {}, "iter_outcomes": {}, "iter_cache_on": 0, "iter_fail_frame": 0,
             "iter_sources": {}, "fault_action": {}, "fault_runs": 0, "fault_hits_by_method": {}, "fault_raised": {},
@@ -841,7 +970,10 @@ def run(ctx):
             "reent_cases_released_after_a_refusal(file source)": 0,
             "sfault_runs": 0, "sfault_style": {}, "sfault_source": {}, "sfault_exc": {}, "sfault_isatty": {},
             "sfault_runs_stream_refused_a_call": 0, "sfault_runs_broken_in_the_last_5_calls(clean-up)": 0,
-            "sfault_raised": {}, "sfault_calls_refused_per_run": {}, "sfault_pos0": {}}
+            "sfault_raised": {}, "sfault_calls_refused_per_run": {}, "sfault_pos0": {},
+            "corder_source": {}, "corder_ops": {}, "corder_outcomes": {}, "corder_iterators": {},
+            "corder_image_close_position": {}, "corder_points_with_everything_closed_explicitly": 0,
+            "corder_next_after_finalization": {}, "corder_cases_iterator_closed_or_advanced_after_its_image": 0}
 
     def inc(d, k, v=1):
         d[str(k)] = d.get(str(k), 0) + v
@@ -931,6 +1063,35 @@ def run(ctx):
                     distinct.add(signature({k: v for k, v in c.items() if k != "ks"}) + f"/s{x['k']}")
                 if x["k"] >= r["base"]["calls"] - 5:
                     hist["sfault_runs_broken_in_the_last_5_calls(clean-up)"] += 1
+        elif c["part"] == "corder":
+            evaluations += 1
+            inc(hist["corder_source"], c["source"])
+            inc(hist["corder_iterators"], sum(1 for o in c["ops"] if o[0] == "new"))
+            fin, marks, started, late = False, [], set(), False
+            for o, row in zip(c["ops"], r["rows"]):
+                inc(hist["corder_ops"], o[0])
+                inc(hist["corder_outcomes"], CORDER_OUT.get(row[0], row[0]))
+                if o[0] == "new":
+                    marks.append(False)
+                elif o[0] == "next":
+                    started.add(o[1])
+                    if fin and o[1] < len(marks) and not marks[o[1]]:
+                        late = True
+                        inc(hist["corder_next_after_finalization"], CORDER_OUT.get(row[0], row[0]))
+                elif o[0] == "iclose" and o[1] < len(marks):
+                    late = late or (fin and not marks[o[1]])
+                    marks[o[1]] = True
+                elif o[0] == "imgclose":
+                    if not fin:
+                        inc(hist["corder_image_close_position"],
+                            "before any iterator" if not marks else "before the first next()" if not started
+                            else "after every iterator.close()" if all(marks) else "while an iterator is open")
+                    fin = True
+                if fin and all(marks):
+                    hist["corder_points_with_everything_closed_explicitly"] += 1
+            hist["corder_cases_iterator_closed_or_advanced_after_its_image"] += late
+            if late:
+                distinct.add(signature(c))
         elif c["part"] == "url":
             evaluations += 1
             for o, row in zip(c["ops"], r["rows"]):
@@ -961,7 +1122,7 @@ def run(ctx):
         else:
             mismatches.append({"case": c, "code": code, "observed": explain(c, r)})
     return {
-        "corr_name": "ImgIter.step (two-phase generator) == ImageIterator histories; ImgIterSpec (direct formatting) == the same; "
+        "corr_name": "ImgIterClose.trace DFixed == histories with image.close() at any position, observed after every op; ImgIter.step (two-phase generator) == ImageIterator histories; ImgIterSpec (direct formatting) == the same; "
                      "ImgIterReent.rstep (close() arriving while a next() executes) == the same with concurrent close() calls; "
                      "fault enumeration with Image.open / Image.close pairing + fd / temp-file observation; "
                      "ImgIterFin.anim_draw code_cleanup == animated draw() into a stream that starts failing at its k-th call",
@@ -999,13 +1160,25 @@ def run(ctx):
                 "Image.open/close pairing, descriptors, size setting, caller's PIL image usable; judged by check_sfault in Coq "
                 "(spec side: a function of the observation alone; model side: anim_draw code_cleanup); one evaluation per run; "
                 "non-trivial: the stream refused at least one call.  url: open (200 image / 404 / non-image / empty body / bad constructor argument) / use / "
-                "close / with / del histories over 3 slots.",
+                "close / with / del histories over 3 slots.  corder (round 9): corpus (the five orders "
+                "image.close() then iterator.close() / the other order / before the first next() / a next() after finalization / an "
+                "iterator requested from a finalized image, for file, URL, PIL-from-file, PIL-from-bytes sources; two iterators with the "
+                "image closed between them; exhaustion from the cache after finalization) + random histories of 1-3 "
+                "ImageIterator(image) / next / iterator.close() over synthetic 2-4 frame GIFs (Pillow holds a GIF's descriptor exactly "
+                "while the image is open) with image.close() inserted at a uniformly chosen position (sometimes "
+                "twice) and mostly a closing phase in random order; after EVERY operation, with every object still referenced: "
+                "outcome, descriptors held on behalf of the library, temp-dir listing, caller's PIL image usable; after the history: "
+                "balance after drop + gc; judged by check_corder in Coq (model: trace DFixed; specification: caller's image usable "
+                "throughout, temp copy exists iff image.close() not yet called, NO descriptor at any point where close() has been "
+                "called on the image and on every iterator created so far, balance at the end); non-trivial: an iterator closed or "
+                "advanced after its image was finalized.",
         "samples": [describe(c) for c in (
             [c for c in cases if c["part"] == "iter"][:1] + [c for c in cases if c["part"] == "iter"][len(ITER_CORPUS):][:1]
             + [c for c in cases if c["part"] == "reent"][:1] + [c for c in cases if c["part"] == "reent"][len(REENT_CORPUS):][:1]
             + [c for c in cases if c["part"] == "fault"][:1] + [c for c in cases if c["part"] == "fault"][len(FAULT_CORPUS):][:2]
             + [c for c in cases if c["part"] == "sfault"][:1] + [c for c in cases if c["part"] == "sfault"][len(SFAULT_CORPUS):][:1]
-            + [c for c in cases if c["part"] == "url"][-1:])],
+            + [c for c in cases if c["part"] == "url"][-1:]
+            + [c for c in cases if c["part"] == "corder"][:1] + [c for c in cases if c["part"] == "corder"][len(CORDER_CORPUS):][:1])],
         "histogram": hist,
         "mismatches": mismatches,
         "failures": failures,
@@ -1028,6 +1201,11 @@ def run(ctx):
             "hand-written skeletons of _get_render_data / _render_image (model/ImgSkel.v): every call other than _close_image has no "
             "effect on the image passed in; frame=True only for animated images (ImageIterator refuses others)",
             "the code modelled is /repo + pending_fixes/C11_close_unrendered_images.diff",
+            "close order (round 9): the model is the code AFTER pending_fixes/C11_iterator_close_after_image_close.diff; whether a "
+            "next() on an iterator whose image has been finalized yields or raises is decided by the environment (it raises "
+            "whenever the render reaches _close_image, yields from the iterator's cache or when no conversion is needed): the "
+            "observed outcome is fed to the model as the [fails] flag of ONext, the theorems hold for every value of it; that a "
+            "descriptor is held exactly by a not-yet-closed PIL image opened from a path is Pillow/OS behaviour, observed",
             "stream faults (round 8): the output stream is modelled as accepting a number of further write()/flush() calls and "
             "refusing every later one (a stream that recovers after a refused call is not modelled); image_it.close(), "
             "_close_image() and the assignment to _seek_position do not fail because of the stream; cursor_down() is pure; "
